@@ -332,6 +332,39 @@ fn check_prefix(frame_bytes: &[u8], content: &[u8], cut: usize, window: u64, war
     Ok(())
 }
 
+/// The complete frame through the slice-to-slice call: alone in the slice, and followed by other
+/// bytes. It must finish, deliver the content and report exactly the frame's length as consumed.
+fn check_whole_from_to(frame_bytes: &[u8], content: &[u8], window: u64, warm: bool, trailing: &[u8]) -> CaseResult {
+    let mut input = frame_bytes.to_vec();
+    input.extend_from_slice(trailing);
+    let mut dec = prefix_decoder(warm, window)?;
+    let mut pos = 0usize;
+    if warm {
+        let mut src = &input[..];
+        dec.reset(&mut src).map_err(|e| Failure::new("valid_input_rejected", format!("reset on a complete frame: {e}")))?;
+        pos = input.len() - src.len();
+    }
+    let what = format!("complete frame of {} bytes{}{}", frame_bytes.len(), if trailing.is_empty() { " alone in the slice" } else { " followed by other bytes" }, if warm { ", on a used decoder" } else { "" });
+    let mut out = vec![0u8; 8192];
+    let mut delivered: Vec<u8> = vec![];
+    let mut rounds = 0;
+    loop {
+        rounds += 1;
+        let (r, w) = dec.decode_from_to(&input[pos..], &mut out).map_err(|e| Failure::new("valid_input_rejected", format!("decode_from_to on a {what}: {e}")))?;
+        ensure!(r <= input.len() - pos, "from_to_overconsume", "decode_from_to consumed {r} of {} offered ({what})", input.len() - pos);
+        pos += r;
+        delivered.extend_from_slice(&out[..w]);
+        if dec.is_finished() && dec.can_collect() == 0 {
+            break;
+        }
+        ensure!(!(r == 0 && w == 0) && rounds < 1_000_000, "from_to_stalls", "decode_from_to makes no progress on a {what}: position {pos}, finished {}, {} bytes delivered of {}", dec.is_finished(), delivered.len(), content.len());
+    }
+    ensure!(pos == frame_bytes.len(), "consumed_count", "decode_from_to consumed {pos} bytes of a {what}");
+    ensure!(dec.bytes_read_from_source() == frame_bytes.len() as u64, "consumed_count", "bytes_read_from_source() = {} after a {what}", dec.bytes_read_from_source());
+    ensure!(delivered == content, "wrong_content", "decode_from_to delivered {} bytes, the content has {} ({what})", delivered.len(), content.len());
+    Ok(())
+}
+
 pub fn check_prefixes(fc: &FrameCase, ctx: &mut CaseCtx) -> CaseResult {
     let b = match fc.build() {
         Ok(b) => b,
@@ -381,8 +414,18 @@ pub fn check_prefixes(fc: &FrameCase, ctx: &mut CaseCtx) -> CaseResult {
             })?;
         }
     }
+    for warm in [false, true] {
+        for trailing in [&b""[..], &[0x28, 0xB5, 0x2F][..], &b"tail!"[..]] {
+            evals += 1;
+            check_whole_from_to(&b.frame, &b.content, rh.window_size, warm, trailing).map_err(|mut f| {
+                f.msg = format!("{}; frame {} ({} bytes, {})", f.msg, hexhead(&b.frame), n, b.source);
+                f
+            })?;
+        }
+    }
     ctx.weight = evals;
     ctx.feat("prefix:also_on_warm_decoder");
+    ctx.feat("whole_frame:decode_from_to_alone_and_followed_by_other_bytes");
     ctx.feat(if n <= 4096 { "prefix:all_cuts" } else { "prefix:boundary_cuts" });
     ctx.feat_if(rh.checksum, "prefix:cut_inside_checksum");
     let has_comp = frame::walk(&b.frame, &Default::default()).map(|i| i.blocks.iter().any(|b| b.btype == 2)).unwrap_or(false);
@@ -392,7 +435,7 @@ pub fn check_prefixes(fc: &FrameCase, ctx: &mut CaseCtx) -> CaseResult {
 }
 
 pub fn run(eng: &Engine) {
-    eng.set_rule("(1) lists of 1..8 data frames interleaved with skippable frames (all 16 magics, payload 0..64 KiB) through decode_all / decode_all_to_vec with targets {exact, +k, -k, 0}, vectors with existing content, and faults (truncated skippable header/payload, trailing garbage, garbage between frames, truncated last frame); (2) every strict prefix of a frame (all cuts for frames <= 4 KiB, structural boundaries +-1 and 64 points otherwise) through decode_blocks, StreamingDecoder, decode_all, decode_from_to, each on a new decoder and on one that completed a checksummed frame before; non-trivial = list with >= 1 skippable and >= 2 data frames, or a prefix family over a frame with a compressed block or a checksum; distinct by input hash");
+    eng.set_rule("(1) lists of 1..8 data frames interleaved with skippable frames (all 16 magics, payload 0..64 KiB) through decode_all / decode_all_to_vec with targets {exact, +k, -k, 0}, vectors with existing content, and faults (truncated skippable header/payload, trailing garbage, garbage between frames, truncated last frame); (2) every strict prefix of a frame (all cuts for frames <= 4 KiB, structural boundaries +-1 and 64 points otherwise) through decode_blocks, StreamingDecoder, decode_all, decode_from_to, each on a new decoder and on one that completed a checksummed frame before; the complete frame through decode_from_to, alone in the slice and followed by other bytes (exact consumed count, full content, finished); non-trivial = list with >= 1 skippable and >= 2 data frames, or a prefix family over a frame with a compressed block or a checksum; distinct by input hash");
     eng.assume("an empty input is zero frames for decode_all (valid); decode_all_to_vec may use all spare capacity of the vector");
     let tier = eng.tier;
     let n_multi = eng.tier.pick(8_000, 150_000);
